@@ -410,7 +410,7 @@ CORPUS = [
     # a very weak current and no pressure: G2 = -iota I2 ~ 1e-9 is small in absolute terms but exactly determined
     dict(rc=[1.0, 0.045], zs=[0.0, -0.045], nfp=3, etabar=-0.9, order='r2', B2c=-0.7, I2=3.0e-9, p2=0.0, nphi=31),
     # a very small device (all lengths x 0.005): absolute guards on quantities that carry a length dimension fire here
-    dict(rc=[0.005, 0.000225], zs=[0.0, -0.000225], nfp=3, etabar=-180.0, order='r1', nphi=31),
+    dict(rc=[0.005, 0.000225], zs=[0.0, -0.000225], nfp=3, etabar=-180.0, order='r1', nphi=61),
     # two harmonics of comparable size: R0 has two competing minima per period and neither sits at phi = 0 or pi/nfp
     dict(rc=[1.0, 0.04, 0.03], zs=[0.0, 0.04, 0.03], nfp=2, etabar=0.9, order='r1', nphi=31),
     # a harmonic carried ONLY by the non-symmetric blocks (rc = zs = 0 for it)
